@@ -101,7 +101,7 @@ def plan(tier, seed):
         scopes = [(1, 1.0), (2, 1.0), (3, 1.0), (4, 0.04)]
         shards = 16
     else:
-        scopes = [(1, 1.0), (2, 1.0), (3, 1.0), (4, 1.0), (5, 0.004)]
+        scopes = [(1, 1.0), (2, 1.0), (3, 1.0), (4, 1.0), (5, 0.02)]
         shards = 64
     for n, frac in scopes:
         k = 1 if n <= 2 else shards
@@ -139,10 +139,12 @@ def _check_structure(cols, order, viol_cb, counters, via_api=None):
         got["ehe"] = G.ehe_id_numpy(arr["p_id"], arr["p_id_ehepartner"])
         got["sn"] = G.sn_id_numpy(arr["p_id"], arr["p_id_ehepartner"], arr["gemeinsam_veranlagt"])
         # priority flags are constant per Bedarfsgemeinschaft
-        flag = {b: (hash(b) >> 3) % 2 == 1 for b in set(ref["bg"])}
-        f1 = np.array([flag[b] for b in ref["bg"]])
-        got["wthh"] = G.wthh_id_numpy(arr["hh_id"], f1, np.zeros(len(f1), dtype=bool))
-        ref_wthh = [(h, bool(f)) for h, f in zip(arr["hh_id"].tolist(), f1.tolist())]
+        bgs = sorted(set(ref["bg"]), key=str)
+        combo = {b: ((i + len(order) + int(arr["alter"][0])) % 4) for i, b in enumerate(bgs)}  # all four (flag1, flag2) combinations occur
+        f1 = np.array([combo[b] in (1, 3) for b in ref["bg"]])
+        f2 = np.array([combo[b] in (2, 3) for b in ref["bg"]])
+        got["wthh"] = G.wthh_id_numpy(arr["hh_id"], f1, f2)
+        ref_wthh = [(h, bool(a or b_)) for h, a, b_ in zip(arr["hh_id"].tolist(), f1.tolist(), f2.tolist())]
     else:
         got, ref_wthh = via_api(arr)
         if got is None:
